@@ -71,9 +71,14 @@ let run (c : string) (obs : string) : string * string * string =
     let s = if hx = "-" then [] else bytes_of_hex hx in
     let txt = str_of_bytes s in
     let decimal = (let n = String.length txt in n > 0 && (let body = if txt.[0] = '-' || txt.[0] = '+' then String.sub txt 1 (n - 1) else txt in
-      body <> "" && String.for_all (fun ch -> ch >= '0' && ch <= '9') body)) in
+      body <> "" && String.for_all (fun ch -> ch >= '0' && ch <= '9') body && (body = "0" || body.[0] <> '0'))) in   (* a leading 0 selects octal in math/big's base-0 reading *)
     let sh = function Some w -> show_w w ^ ",0" | None -> "0:0,1" in
-    let model = if decimal || (txt = "" ) || String.exists (fun ch -> not ((ch >= '0' && ch <= '9') || ch = '-' || ch = '+')) txt && not (String.exists (fun ch -> String.contains "xXoObBeE_." ch) txt)
+    let all_digits_signs = String.for_all (fun ch -> (ch >= '0' && ch <= '9') || ch = '-' || ch = '+') txt in
+    let leading_zero = (let n = String.length txt in n > 1 && (let body = if txt.[0] = '-' || txt.[0] = '+' then String.sub txt 1 (n - 1) else txt in
+      String.length body > 1 && body.[0] = '0' && String.for_all (fun ch -> ch >= '0' && ch <= '9') body)) in
+    ignore all_digits_signs;
+    let other_spelling = String.exists (fun ch -> String.contains "xXoObBeE_." ch) txt || leading_zero in
+    let model = if decimal || not other_spelling
       then Printf.sprintf "u=%s i=%s nc=1" (sh (m_ufromstring s)) (sh (m_ifromstring s)) else obs (* other spellings big.Int / big.Float accept: not modelled *) in
     if !errs = [] then begin
       let (uw, ue) = (match String.split_on_char ',' (field ws "u") with [w; e] -> (parse_w w, e) | _ -> ((BZ.zero, BZ.zero), "?")) in
@@ -84,7 +89,7 @@ let run (c : string) (obs : string) : string * string * string =
         if ue <> "0" || ie <> "0" then add "kind=integer-text-rejected";
         if not (BZ.equal (uval (fst uw) (snd uw)) (clamp BZ.zero (BZ.pred p128) zz)) then add "kind=uint128-fromstring-not-clamped-value";
         if not (BZ.equal (sval (fst iw) (snd iw)) (clamp (BZ.neg p127) (BZ.pred p127) zz)) then add "kind=int128-fromstring-not-clamped-value"
-      end else if not (String.exists (fun ch -> String.contains "xXoObBeE_" ch) txt) then begin
+      end else if not other_spelling then begin
         (* neither a decimal integer nor one of the other integer spellings: must be rejected *)
         if ue <> "1" || ie <> "1" then add "kind=non-integer-text-accepted"
       end
